@@ -160,3 +160,130 @@ def parse_diff_dot(out):
             c1 = c2 = label
         rows.append((t, src, dst, c1, c2))
     return sorted(rows)
+
+
+# ---------------------------------------------------------------- exposure sections (list --exposure; txt md csv json)
+NSKEY = 'kubernetes.io/metadata.name'
+
+
+def render_selector(sel):
+    """writeLabelSelectorAsString on the API selector as the harness reports it"""
+    ml = ','.join('%s=%s' % (k, v) for k, v in sorted((sel.get('matchLabels') or {}).items()))
+    ex = sorted('{Key:%s,Operator:%s,Values:[%s],}' % (e['key'], e['op'], ' '.join(e.get('values') or [])) for e in sel.get('exprs') or [])
+    return ','.join([x for x in [ml] + ex if x])
+
+
+def sel_size(sel):
+    return len(sel.get('matchLabels') or {}) + len(sel.get('exprs') or [])
+
+
+def render_rep(ns_sel, pod_sel):
+    ml = ns_sel.get('matchLabels') or {}
+    if len(ml) == 1 and not (ns_sel.get('exprs') or []) and NSKEY in ml:
+        ns = ml[NSKEY]
+    elif sel_size(ns_sel) == 0:
+        ns = '[all namespaces]'
+    else:
+        ns = '[namespace with {%s}]' % render_selector(ns_sel)
+    pod = '[all pods]' if sel_size(pod_sel) == 0 else '[pod with {%s}]' % render_selector(pod_sel)
+    return ns + '/' + pod
+
+
+def api_exposure_rows(obs):
+    """(direction, workload, other end, connection) rows the exposure sections must hold, and the unprotected lines"""
+    rows, unprot = [], []
+    ips = {p['str'] for p in obs['peers'] if p['ip']}
+    for x in obs.get('exposure') or []:
+        w = x['peer']
+        for d in ('ingress', 'egress'):
+            if not x[d + '_protected']:
+                rows.append((d, w, 'entire-cluster', 'All Connections'))
+                unprot.append('%s is not protected on %s' % (w, 'Ingress' if d == 'ingress' else 'Egress'))
+            else:
+                for e in x[d]:
+                    other = 'entire-cluster' if e['cluster'] else render_rep(e['ns_sel'], e['pod_sel'])
+                    rows.append((d, w, other, e['conn_str']))
+            for c in obs['conns']:
+                if d == 'egress' and c['src'] == w and c['dst'] in ips:
+                    rows.append((d, w, c['dst'], conn_str(c['conn'])))
+                if d == 'ingress' and c['dst'] == w and c['src'] in ips:
+                    rows.append((d, w, c['src'], conn_str(c['conn'])))
+    return sorted(rows), sorted(unprot)
+
+
+def parse_exposure_txt(out):
+    if 'Exposure Analysis Result:' not in out:
+        return [], []
+    body = out.split('Exposure Analysis Result:', 1)[1]
+    rows, unprot, sec = [], [], None
+    for line in body.split('\n'):
+        if not line.strip():
+            continue
+        if line.startswith('Egress Exposure:'):
+            sec = 'egress'
+        elif line.startswith('Ingress Exposure:'):
+            sec = 'ingress'
+        elif line.startswith('Workloads not protected by network policies:'):
+            sec = 'unprot'
+        elif sec == 'unprot':
+            unprot.append(line.strip())
+        else:
+            m = re.match(r'^(.*?)\s*\t(=>|<=) \t(.*) : (.*)$', line)
+            if not m or (m.group(2) == '=>') != (sec == 'egress'):
+                raise ValueError('exposure txt line: ' + repr(line))
+            rows.append((sec, m.group(1).strip(), m.group(3).strip(), m.group(4).strip()))
+    return sorted(rows), sorted(unprot)
+
+
+def parse_exposure_md(out):
+    if '## Exposure Analysis Result:' not in out:
+        return []
+    body = out.split('## Exposure Analysis Result:', 1)[1]
+    rows, sec = [], None
+    for line in body.split('\n'):
+        if not line.strip():
+            continue
+        if line.startswith('### Egress Exposure:'):
+            sec = 'egress'
+        elif line.startswith('### Ingress Exposure:'):
+            sec = 'ingress'
+        elif line.startswith('|---') or line.strip() in ('| src | dst | conn |', '| dst | src | conn |'):
+            if line.strip() == '| dst | src | conn |' and sec != 'ingress' or line.strip() == '| src | dst | conn |' and sec != 'egress':
+                raise ValueError('exposure md header in the wrong section')
+        else:
+            parts = [p.strip() for p in line.strip().strip('|').split(' | ')]
+            if len(parts) != 3:
+                raise ValueError('exposure md line: ' + line)
+            rows.append((sec, parts[0], parts[1], parts[2]))
+    return sorted(rows)
+
+
+def parse_exposure_csv(out):
+    rd = list(csv.reader(io.StringIO(out)))
+    rows, sec, started = [], None, False
+    for r in rd:
+        if r and r[0] == 'Exposure Analysis Result:':
+            started = True
+            continue
+        if not started or not r:
+            continue
+        if r[0] == 'Egress Exposure:':
+            sec = 'egress'
+        elif r[0] == 'Ingress Exposure:':
+            sec = 'ingress'
+        elif r in (['src', 'dst', 'conn'], ['dst', 'src', 'conn']):
+            if (r[0] == 'dst') != (sec == 'ingress'):
+                raise ValueError('exposure csv header in the wrong section')
+        else:
+            rows.append((sec, r[0], r[1], r[2]))
+    return sorted(rows)
+
+
+def parse_exposure_json(out):
+    d = json.loads(out)
+    if not isinstance(d, dict) or 'exposure_results' not in d:
+        return []
+    ex = d['exposure_results'] or {}
+    rows = [('egress', x['src'], x['dst'], x['conn']) for x in ex.get('egress_exposure') or []]
+    rows += [('ingress', x['dst'], x['src'], x['conn']) for x in ex.get('ingress_exposure') or []]
+    return sorted(rows)
